@@ -43,8 +43,10 @@ Clause(c) ==
   ELSE IF \E p \in GValid(g) : L(p) <= 0 THEN "label_not_positive"
   \* two adjacent cells of equal value carry different labels: a component is split
   ELSE IF \E q \in GValid(g) : \E p \in SameNbrs(g, q) : L(p) # L(q) THEN "component_split"
-  \* same label <=> joined by a path of adjacent equal-valued cells
-  ELSE IF LabelClasses(g, lab) # Components(g) THEN "components_joined"
+  \* same label <=> joined by a path of adjacent equal-valued cells.  At this point no component is split,
+  \* so every label class is a union of components and LabelClasses(g, lab) = Components(g) (the statement
+  \* checked literally in Regions.tla) holds exactly when there are as many labels as components
+  ELSE IF Cardinality({L(p) : p \in GValid(g)}) # Cardinality(Components(g)) THEN "components_joined"
   ELSE IF c.dims_out # c.dims_in THEN "dims_differ"
   ELSE IF c.cnames_out # c.cnames_in THEN "coords_differ"
   ELSE IF c.cvals_out # c.cvals_in THEN "coords_differ"
